@@ -30,6 +30,10 @@ StModMask(kc) == CASE kc \in {42, 54} -> 32768       \* LShift | RShift  0x8000
                    [] kc \in {125, 126} -> 2048      \* LGui | RGui      0x0800
                    [] OTHER -> 0
 
+\* src: parser/src/cfg/mod.rs parse_sequence_keys (fix efb3afa) and src/kanata/sequences.rs:112-117: the right-hand
+\* shift, meta and ctrl keys count as their left-hand counterparts, in the table and in what is typed
+StFold(c) == CASE c = 54 -> 42 [] c = 126 -> 125 [] c = 97 -> 29 [] OTHER -> c
+
 StSetOf(s) == {s[i] : i \in DOMAIN s}
 StIsPrefix(s, t) == Len(s) <= Len(t) /\ SubSeq(t, 1, Len(s)) = s
 
@@ -46,15 +50,15 @@ StMaskSum(mods, n) ==
 
 \* the ways one item can be typed, as token strings
 StItemEnc(it) ==
-  CASE it.t = "k" -> {<<it.c>>}
+  CASE it.t = "k" -> {<<StFold(it.c)>>}
     [] it.t = "m" ->
          LET nm == Len(it.mods)
              all == StMaskSum(it.mods, nm)
          IN {[i \in 1..(nm + Len(it.ks)) |->
-                IF i <= nm THEN it.mods[i] + StMaskSum(it.mods, i) ELSE it.ks[i - nm] + all]}
+                IF i <= nm THEN StFold(it.mods[i]) + StMaskSum(it.mods, i) ELSE StFold(it.ks[i - nm]) + all]}
     [] it.t = "o" ->
          LET n == Len(it.ks) IN
-         {[i \in 1..(n + 1) |-> IF i <= n THEN p[i] + StMarker ELSE StMarker] : p \in StPerms(StSetOf(it.ks))}
+         {[i \in 1..(n + 1) |-> IF i <= n THEN StFold(p[i]) + StMarker ELSE StMarker] : p \in StPerms(StSetOf(it.ks))}
 
 RECURSIVE StEncode(_)
 \* every permitted way of typing the definition
